@@ -1,10 +1,11 @@
 /-
   C13 for fragment texts with branches, ring digits and bond symbols: a text made of plain atoms, bond
   symbols, ring-closure runs (digits and %nn, with or without a ring bond symbol in front), parentheses
-  and bonding descriptors written after an atom, after the atom's ring digits or after another
-  descriptor — any length, any nesting — is separated exactly: the clean text is the text without the
-  descriptors, every descriptor is reported on the atom it was written after (counting atoms in order of
-  appearance, also inside branches), in the order written, with its order; nothing else is reported.
+  and bonding descriptors written after an atom, after the atom's ring digits, after another descriptor
+  or after a closing parenthesis — any length, any nesting — is separated exactly: the clean text is the
+  text without the descriptors, every descriptor is reported on the atom it was written after (counting
+  atoms in order of appearance, also inside branches; after a closing parenthesis that is the atom the
+  branch hangs on), in the order written, with its order; nothing else is reported.
 -/
 import CGV.Props.C13Chain
 namespace CGV.C13
@@ -13,6 +14,10 @@ set_option linter.unusedSimpArgs false
 
 inductive TK
   | atom (e : Char)
+  | atom2 (e c : Char)      -- a two-letter element: `Cl`, `Br`, `Si`, `Mg`, `Na`
+  | node (inner : Str)      -- a bracket atom without annotations: `[#name]`, `[nH]`, `[O-]`
+  | anode (nm anno : Str) -- a bracket atom with annotations: `[#name;q=1]`, `[C;w=0.5;x=S]`
+  | slash (c : Char)        -- an E/Z mark `/` or `\`
   | desc (d : WFDesc)
   | bond (c : Char)
   | ring (run : Str)
@@ -21,6 +26,10 @@ inductive TK
 
 def TK.text : TK → Str
   | .atom e => [e]
+  | .atom2 e c => [e, c]
+  | .node inner => '[' :: (inner ++ [']'])
+  | .anode nm anno => '[' :: (nm ++ ';' :: (anno ++ [']']))
+  | .slash c => [c]
   | .desc d => d.fmt
   | .bond c => [c]
   | .ring r => r
@@ -30,27 +39,80 @@ def TK.text : TK → Str
 /-- what stays in the clean text -/
 def TK.clean : TK → Str
   | .desc _ => []
+  | .slash _ => []
+  | .anode nm _ => '[' :: (nm ++ [']'])
   | t => t.text
 
 def render (ts : List TK) : Str := ts.flatMap TK.text
 def cleanText (ts : List TK) : Str := ts.flatMap TK.clean
 
-/-- the dictionary the property describes: every descriptor under the index of the atom it was written
-    after (`n` = atoms seen so far) -/
-def specDict : Nat → List (Nat × List Desc) → List TK → List (Nat × List Desc)
+/-- where we are in the text: `n` = atoms seen so far, `prev` = the atom a descriptor or mark written here
+    belongs to (the last atom, or after a closing parenthesis the atom the closed branch hangs on), `stk` =
+    the atoms the open branches hang on, innermost first -/
+structure Pos where
+  n : Nat := 0
+  prev : Nat := 0
+  stk : List Nat := []
+
+def Pos.after (p : Pos) : TK → Pos
+  | .atom _ => ⟨p.n + 1, p.n, p.stk⟩
+  | .atom2 _ _ => ⟨p.n + 1, p.n, p.stk⟩
+  | .node _ => ⟨p.n + 1, p.n, p.stk⟩
+  | .anode _ _ => ⟨p.n + 1, p.n, p.stk⟩
+  | .opn => ⟨p.n, p.prev, p.prev :: p.stk⟩
+  | .cls => ⟨p.n, p.stk.headD 0, p.stk.tail⟩
+  | .desc _ => p
+  | .bond _ => p
+  | .ring _ => p
+  | .slash _ => p
+
+/-- the dictionary the property describes: every descriptor under the index of the atom it was written after -/
+def specDict : Pos → List (Nat × List Desc) → List TK → List (Nat × List Desc)
   | _, b, [] => b
-  | n, b, .atom _ :: ts => specDict (n + 1) b ts
-  | n, b, .desc d :: ts => specDict n (appendDesc b (n - 1) d.text) ts
-  | n, b, .bond _ :: ts => specDict n b ts
-  | n, b, .ring _ :: ts => specDict n b ts
-  | n, b, .opn :: ts => specDict n b ts
-  | n, b, .cls :: ts => specDict n b ts
+  | p, b, t :: ts =>
+    match t with
+    | .desc d => specDict p (appendDesc b p.prev d.text) ts
+    | t => specDict (p.after t) b ts
+
+/-- the E/Z marks: every slash is recorded on the atom before it and on the atom that follows it (a later
+    mark on the same atom replaces the earlier one) -/
+def specEz : Pos → List (Nat × Char) → List TK → List (Nat × Char)
+  | _, z, [] => z
+  | p, z, t :: ts =>
+    match t with
+    | .slash c => specEz p (pySet (pySet z p.n c) p.prev c) ts
+    | t => specEz (p.after t) z ts
+
+/-- what the fragment dialect gives an atom written without annotations -/
+def bareAttrs : Attrs := [("weight".toList, .num 1 0)]
+
+/-- what the fragment dialect (C14) makes of an annotation text -/
+def annoOf (anno : Str) : Attrs :=
+  match parseFrag anno with
+  | .ok a => a.foldl (fun acc (kv : Str × AVal) => pySet acc kv.1 kv.2) []
+  | .error _ => []
+
+/-- the annotation dictionary: one entry per bracket atom, under its atom index -/
+def specAttrs : Nat → List TK → List (Nat × Attrs)
+  | _, [] => []
+  | n, t :: ts =>
+    match t with
+    | .atom _ => specAttrs (n + 1) ts
+    | .atom2 _ _ => specAttrs (n + 1) ts
+    | .node _ => (n, bareAttrs) :: specAttrs (n + 1) ts
+    | .anode _ anno => (n, annoOf anno) :: specAttrs (n + 1) ts
+    | _ => specAttrs n ts
 
 def ringChar (c : Char) : Bool := c.isDigit || c == '%'
 
 /-- well-formed token -/
 def TK.ok : TK → Prop
   | .atom e => e ∈ plainAtoms
+  | .atom2 e c => [e, c] ∈ twoLetterElements
+  | .node inner => (∃ c r, inner = c :: r ∧ descriptorKinds.contains c = false) ∧ ']' ∉ inner ∧ ';' ∉ inner
+  | .anode nm anno => (∃ c r, nm = c :: r ∧ descriptorKinds.contains c = false) ∧ ']' ∉ nm ∧ ';' ∉ nm ∧
+      ']' ∉ anno ∧ ∃ a, parseFrag anno = .ok a
+  | .slash c => c = '/' ∨ c = '\\'
   | .desc _ => True
   | .bond c => (bondToOrder2.lookup c).isSome = true
   | .ring r => r ≠ [] ∧ r.all ringChar = true
@@ -61,21 +123,37 @@ def TK.isRing : TK → Bool
   | .ring _ => true
   | _ => false
 
-/-- where a descriptor may stand, and parentheses balanced: `co` = no bond symbol pending, `fresh` = the
-    last atom is the attachment point (no `)` since), `n` = atoms so far, `depth` = open branches -/
-def Valid : Nat → Bool → Bool → Nat → List TK → Prop
-  | _, _, _, _, [] => True
-  | n, _, _, depth, .atom e :: ts => TK.ok (.atom e) ∧ Valid (n + 1) true true depth ts
-  | n, co, fresh, depth, .desc d :: ts => 0 < n ∧ co = true ∧ fresh = true ∧ Valid n co fresh depth ts
-  | n, _, fresh, depth, .bond c :: ts => TK.ok (.bond c) ∧ Valid n false fresh depth ts
-  | n, _, fresh, depth, .ring r :: ts => TK.ok (.ring r) ∧ (ts.head?.map TK.isRing ≠ some true) ∧ Valid n true fresh depth ts
-  | n, co, fresh, depth, .opn :: ts => Valid n co fresh (depth + 1) ts
-  | n, co, _, depth, .cls :: ts => 0 < depth ∧ Valid n co false (depth - 1) ts
+/-- where a descriptor may stand, and parentheses balanced: `co` = no bond symbol pending, `n` = atoms so
+    far, `depth` = open branches -/
+def Valid : Nat → Bool → Nat → List TK → Prop
+  | _, _, _, [] => True
+  | n, _, depth, .atom e :: ts => TK.ok (.atom e) ∧ Valid (n + 1) true depth ts
+  | n, _, depth, .atom2 e c :: ts => TK.ok (.atom2 e c) ∧ Valid (n + 1) true depth ts
+  | n, _, depth, .node i :: ts => TK.ok (.node i) ∧ Valid (n + 1) true depth ts
+  | n, _, depth, .anode a x :: ts => TK.ok (.anode a x) ∧ Valid (n + 1) true depth ts
+  | n, co, depth, .slash c :: ts => TK.ok (.slash c) ∧ Valid n co depth ts
+  | n, co, depth, .desc d :: ts => 0 < n ∧ co = true ∧ Valid n co depth ts
+  | n, _, depth, .bond c :: ts => TK.ok (.bond c) ∧ Valid n false depth ts
+  | n, _, depth, .ring r :: ts => TK.ok (.ring r) ∧ (ts.head?.map TK.isRing ≠ some true) ∧ Valid n true depth ts
+  | n, co, depth, .opn :: ts => Valid n co (depth + 1) ts
+  | n, co, depth, .cls :: ts => 0 < depth ∧ Valid n co (depth - 1) ts
 
 /-! ### one loop iteration per token -/
 
 def afterTK (st : StripState) : TK → StripState
   | .atom e => afterAtom st e
+  | .atom2 e c => { st with smile := st.smile ++ [e, c], currentOrder := none, prevNode := st.nodeCount,
+                            nodeCount := st.nodeCount + 1 }
+  | .anode nm anno => { st with attrs := pySet st.attrs st.nodeCount
+                                        ((match parseFrag anno with | .ok a => a | .error _ => []).foldl
+                                          (fun acc (kv : Str × AVal) => pySet acc kv.1 kv.2) ((st.attrs.lookup st.nodeCount).getD [])),
+                                  smile := st.smile ++ ['['] ++ nm ++ [']'],
+                                  prevNode := st.nodeCount, nodeCount := st.nodeCount + 1, currentOrder := none }
+  | .slash c => { st with ez := pySet (pySet st.ez st.nodeCount c) st.prevNode c }
+  | .node inner => { st with attrs := pySet st.attrs st.nodeCount
+                                        (bareAttrs.foldl (fun acc (kv : Str × AVal) => pySet acc kv.1 kv.2) ((st.attrs.lookup st.nodeCount).getD [])),
+                             smile := st.smile ++ ['['] ++ inner ++ [']'],
+                             prevNode := st.nodeCount, nodeCount := st.nodeCount + 1, currentOrder := none }
   | .desc d => afterDesc st d
   | .bond c => { st with currentOrder := bondToOrder2.lookup c, smile := st.smile ++ [c] }
   | .ring r => { st with smile := st.smile ++ r, currentOrder := none }
@@ -129,6 +207,62 @@ theorem span_run (p : Char → Bool) (r after : Str) (hr : r.all p = true) (h : 
     (r ++ after).span p = (r, after) := by
   unfold List.span
   rw [span_loop_run p r after [] hr h]; rfl
+
+theorem takeBracket_inner (inner rest : Str) (h : ']' ∉ inner) : takeBracket (inner ++ ']' :: rest) = some (inner, rest) :=
+  takeBracket_label inner rest h
+
+theorem span_no_semicolon (inner : Str) (h : ';' ∉ inner) : inner.span (· != ';') = (inner, []) := by
+  have := span_run (fun c => c != ';') inner [] (by
+    rw [List.all_eq_true]; intro c hc; simp only [bne_iff_ne, ne_eq]; intro e; exact h (e ▸ hc)) (by simp)
+  simpa using this
+
+theorem node_step (inner rest : Str) (st : StripState) (hok : TK.ok (.node inner)) :
+    stripStep '[' (inner ++ ']' :: rest) st = .ok (rest, afterTK st (.node inner)) := by
+  obtain ⟨⟨c, r, rfl, hk⟩, hb, hs⟩ := hok
+  have htb := takeBracket_inner (c :: r) rest hb
+  have hsp : splitAtomAnno (c :: r) = (c :: r, []) := by
+    unfold splitAtomAnno; rw [span_no_semicolon (c :: r) hs]
+  have hpf : parseFrag [] = .ok bareAttrs := by decide +kernel
+  simp only [stripStep, beq_self_eq_true, if_true, List.cons_append, hk, Bool.false_eq_true, if_false]
+  rw [show c :: (r ++ ']' :: rest) = (c :: r) ++ ']' :: rest from rfl, htb]
+  simp only [hsp, hpf, bind, Except.bind, pure, Except.pure, afterTK]
+
+theorem anode_step (nm anno rest : Str) (st : StripState) (hok : TK.ok (.anode nm anno)) :
+    stripStep '[' (nm ++ ';' :: (anno ++ ']' :: rest)) st = .ok (rest, afterTK st (.anode nm anno)) := by
+  obtain ⟨⟨c, r, rfl, hk⟩, hb, hs, hb2, a, ha⟩ := hok
+  have hin : ']' ∉ (c :: r) ++ ';' :: anno := by
+    intro hm
+    rcases List.mem_append.mp hm with h | h
+    · exact hb h
+    · rcases List.mem_cons.mp h with e | h
+      · cases e
+      · exact hb2 h
+  have htb := takeBracket_inner ((c :: r) ++ ';' :: anno) rest hin
+  have hsp : splitAtomAnno ((c :: r) ++ ';' :: anno) = (c :: r, anno) := by
+    unfold splitAtomAnno
+    rw [span_run (fun x => x != ';') (c :: r) (';' :: anno) (by
+      rw [List.all_eq_true]; intro x hx; simp only [bne_iff_ne, ne_eq]; intro e; exact hs (e ▸ hx)) (by simp)]
+  simp only [stripStep, beq_self_eq_true, if_true, List.cons_append, hk, Bool.false_eq_true, if_false]
+  rw [show c :: (r ++ ';' :: (anno ++ ']' :: rest)) = ((c :: r) ++ ';' :: anno) ++ ']' :: rest from by simp, htb]
+  simp only [hsp, ha, bind, Except.bind, pure, Except.pure, afterTK]
+
+theorem atom2_step (e c : Char) (h : [e, c] ∈ twoLetterElements) (rest : Str) (st : StripState) :
+    stripStep e (c :: rest) st = .ok (rest, afterTK st (.atom2 e c)) := by
+  have key : ∀ x ∈ twoLetterElements, ∀ e c, x = [e, c] →
+      (e == '[') = false ∧ (e == '(') = false ∧ (e == ')') = false ∧ bondToOrder2.lookup e = none ∧
+      (e == '%' || e.isDigit) = false ∧ pyStrIn [e] passThroughChars = false ∧ pyStrIn [e] ezChars = false := by
+    intro x hx
+    have : x = ['C', 'l'] ∨ x = ['B', 'r'] ∨ x = ['S', 'i'] ∨ x = ['M', 'g'] ∨ x = ['N', 'a'] := by
+      simpa [twoLetterElements] using hx
+    rcases this with rfl | rfl | rfl | rfl | rfl <;> intro e c hec <;> cases hec <;> decide +kernel
+  obtain ⟨h1, h2, h3, h4, h5, h6, h7⟩ := key _ h e c rfl
+  have h8 : twoLetterElements.contains [e, c] = true := List.contains_iff_mem.mpr h
+  simp [stripStep, afterTK, h1, h2, h3, h4, h5, h6, h7, h, pure, Except.pure]
+
+theorem slash_step (c : Char) (h : c = '/' ∨ c = '\\') (rest : Str) (st : StripState) :
+    stripStep c rest st = .ok (rest, afterTK st (.slash c)) := by
+  rcases h with rfl | rfl <;>
+    simp [stripStep, afterTK, bondToOrder2, List.lookup, pyStrIn, passThroughChars, ezChars, pure, Except.pure]
 
 theorem ring_step (c : Char) (cs after : Str) (hr : (c :: cs).all ringChar = true)
     (hafter : after.head?.map ringChar ≠ some true) (st : StripState) :
@@ -190,6 +324,19 @@ theorem tk_head (t : TK) (ht : t.ok) : ∃ c r, t.text = c :: r ∧ secondLetter
   | atom e =>
     have : ∀ e ∈ plainAtoms, secondLetters.contains e = false ∧ ringChar e = false := by decide +kernel
     exact ⟨e, [], rfl, (this e ht).1, fun _ => (this e ht).2⟩
+  | atom2 e c =>
+    have : ∀ x ∈ twoLetterElements, secondLetters.contains (x.getD 0 ' ') = false ∧ ringChar (x.getD 0 ' ') = false := by
+      decide +kernel
+    have h := this _ ht
+    simp only [List.getD_cons_zero] at h
+    exact ⟨e, [c], rfl, h.1, fun _ => h.2⟩
+  | node inner => exact ⟨'[', inner ++ [']'], rfl, by decide +kernel, fun _ => by decide +kernel⟩
+  | anode nm anno => exact ⟨'[', nm ++ ';' :: (anno ++ [']']), rfl, by decide +kernel, fun _ => by decide +kernel⟩
+  | slash c =>
+    have hc : c = '/' ∨ c = '\\' := ht
+    rcases hc with rfl | rfl
+    · exact ⟨'/', [], rfl, by decide +kernel, fun _ => by decide +kernel⟩
+    · exact ⟨'\\', [], rfl, by decide +kernel, fun _ => by decide +kernel⟩
   | desc d =>
     obtain ⟨c, r, h1, h2⟩ := fmt_head d
     have : ∀ c ∈ ['[', '.', '=', '#', '$'], secondLetters.contains c = false ∧ ringChar c = false := by decide +kernel
@@ -218,27 +365,31 @@ theorem tk_head (t : TK) (ht : t.ok) : ∃ c r, t.text = c :: r ∧ secondLetter
   | opn => exact ⟨'(', [], rfl, by decide +kernel, fun _ => by decide +kernel⟩
   | cls => exact ⟨')', [], rfl, by decide +kernel, fun _ => by decide +kernel⟩
 
-theorem valid_head_ok : ∀ (ts : List TK) (n : Nat) (co fresh : Bool) (depth : Nat), Valid n co fresh depth ts →
+theorem valid_head_ok : ∀ (ts : List TK) (n : Nat) (co : Bool) (depth : Nat), Valid n co depth ts →
     ∀ t ∈ ts.head?, t.ok
-  | [], _, _, _, _, _, t, h => by simp at h
-  | t0 :: ts, n, co, fresh, depth, hv, t, h => by
+  | [], _, _, _, _, t, h => by simp at h
+  | t0 :: ts, n, co, depth, hv, t, h => by
     simp only [List.head?_cons, Option.mem_def, Option.some.injEq] at h
     subst h
     cases t0 with
     | atom e => exact hv.1
+    | atom2 e c => exact hv.1
+    | node i => exact hv.1
+    | anode a x => exact hv.1
+    | slash c => exact hv.1
     | desc d => trivial
     | bond c => exact hv.1
     | ring r => exact hv.1
     | opn => trivial
     | cls => trivial
 
-theorem render_head (ts : List TK) (n : Nat) (co fresh : Bool) (depth : Nat) (hv : Valid n co fresh depth ts) :
+theorem render_head (ts : List TK) (n : Nat) (co : Bool) (depth : Nat) (hv : Valid n co depth ts) :
     (render ts).head?.all (fun c => !secondLetters.contains c) = true ∧
     (ts.head?.map TK.isRing ≠ some true → (render ts).head?.map ringChar ≠ some true) := by
   cases ts with
   | nil => simp [render]
   | cons t ts' =>
-    obtain ⟨c, r, h1, h2, h3⟩ := tk_head t (valid_head_ok _ n co fresh depth hv t (by simp))
+    obtain ⟨c, r, h1, h2, h3⟩ := tk_head t (valid_head_ok _ n co depth hv t (by simp))
     have : render (t :: ts') = c :: (r ++ render ts') := by simp [render, h1]
     rw [this]
     refine ⟨by simp only [List.head?_cons, Option.all_some, h2]; rfl, ?_⟩
@@ -249,37 +400,69 @@ theorem render_head (ts : List TK) (n : Nat) (co fresh : Bool) (depth : Nat) (hv
 
 /-! ### the loop on a token stream -/
 
-/-- what the loop state knows: atoms so far, no pending bond symbol, attachment point, open branches -/
-structure Sim (n : Nat) (co fresh : Bool) (depth : Nat) (st : StripState) : Prop where
+/-- what the loop state knows: atoms so far, no pending bond symbol, open branches -/
+structure Sim (n : Nat) (co : Bool) (depth : Nat) (st : StripState) : Prop where
   count : st.nodeCount = n
   order : co = true → st.currentOrder = none
-  prev : fresh = true → st.prevNode + 1 = st.nodeCount
   anchors : st.anchor.length = depth
 
 theorem render_cons (t : TK) (ts : List TK) : render (t :: ts) = t.text ++ render ts := by simp [render]
 
 /-- the loop takes exactly `itersT ts` iterations on a valid token stream and ends in the folded state -/
-theorem stripAux_tokens : ∀ (ts : List TK) (n : Nat) (co fresh : Bool) (depth : Nat) (st : StripState) (fuel : Nat),
-    Valid n co fresh depth ts → Sim n co fresh depth st →
+theorem stripAux_tokens : ∀ (ts : List TK) (n : Nat) (co : Bool) (depth : Nat) (st : StripState) (fuel : Nat),
+    Valid n co depth ts → Sim n co depth st →
     stripAux (fuel + 1 + itersT ts) (render ts) st = .ok (ts.foldl afterTK st)
-  | [], _, _, _, _, st, fuel, _, _ => by simp [itersT, render, stripAux, pure, Except.pure]
-  | .atom e :: ts, n, co, fresh, depth, st, fuel, hv, sim => by
+  | [], _, _, _, st, fuel, _, _ => by simp [itersT, render, stripAux, pure, Except.pure]
+  | .atom e :: ts, n, co, depth, st, fuel, hv, sim => by
     obtain ⟨he, hv'⟩ := hv
-    have hh := (render_head ts (n + 1) true true depth hv').1
+    have hh := (render_head ts (n + 1) true depth hv').1
     rw [render_cons, show fuel + 1 + itersT (.atom e :: ts) = (fuel + 1 + itersT ts) + 1 from by simp [itersT]; omega]
     show stripAux _ (e :: render ts) st = _
     rw [stripAux, atom_step3 e he _ hh st]
     simp only [bind, Except.bind, List.foldl_cons]
-    exact stripAux_tokens ts (n + 1) true true depth _ fuel hv'
-      ⟨by simp [afterAtom, sim.count], fun _ => rfl, fun _ => rfl, by simp [afterAtom, sim.anchors]⟩
-  | .desc d :: ts, n, co, fresh, depth, st, fuel, hv, sim => by
-    obtain ⟨hn, hco, hfr, hv'⟩ := hv
+    exact stripAux_tokens ts (n + 1) true depth _ fuel hv'
+      ⟨by simp [afterAtom, sim.count], fun _ => rfl, by simp [afterAtom, sim.anchors]⟩
+  | .atom2 e c :: ts, n, co, depth, st, fuel, hv, sim => by
+    obtain ⟨he, hv'⟩ := hv
+    rw [render_cons, show fuel + 1 + itersT (.atom2 e c :: ts) = (fuel + 1 + itersT ts) + 1 from by simp [itersT]; omega]
+    show stripAux _ (e :: c :: render ts) st = _
+    rw [stripAux, atom2_step e c he _ st]
+    simp only [bind, Except.bind, List.foldl_cons]
+    exact stripAux_tokens ts (n + 1) true depth _ fuel hv'
+      ⟨by simp [afterTK, sim.count], fun _ => rfl, by simp [afterTK, sim.anchors]⟩
+  | .node inner :: ts, n, co, depth, st, fuel, hv, sim => by
+    obtain ⟨hok, hv'⟩ := hv
+    rw [render_cons, show fuel + 1 + itersT (.node inner :: ts) = (fuel + 1 + itersT ts) + 1 from by simp [itersT]; omega]
+    show stripAux _ ('[' :: (inner ++ [']']) ++ render ts) st = _
+    rw [show '[' :: (inner ++ [']']) ++ render ts = '[' :: (inner ++ ']' :: render ts) from by simp]
+    rw [stripAux, node_step inner (render ts) st hok]
+    simp only [bind, Except.bind, List.foldl_cons]
+    exact stripAux_tokens ts (n + 1) true depth _ fuel hv'
+      ⟨by simp [afterTK, sim.count], fun _ => rfl, by simp [afterTK, sim.anchors]⟩
+  | .anode nm anno :: ts, n, co, depth, st, fuel, hv, sim => by
+    obtain ⟨hok, hv'⟩ := hv
+    rw [render_cons, show fuel + 1 + itersT (.anode nm anno :: ts) = (fuel + 1 + itersT ts) + 1 from by simp [itersT]; omega]
+    show stripAux _ ('[' :: (nm ++ ';' :: (anno ++ [']'])) ++ render ts) st = _
+    rw [show '[' :: (nm ++ ';' :: (anno ++ [']'])) ++ render ts = '[' :: (nm ++ ';' :: (anno ++ ']' :: render ts)) from by simp]
+    rw [stripAux, anode_step nm anno (render ts) st hok]
+    simp only [bind, Except.bind, List.foldl_cons]
+    exact stripAux_tokens ts (n + 1) true depth _ fuel hv'
+      ⟨by simp [afterTK, sim.count], fun _ => rfl, by simp [afterTK, sim.anchors]⟩
+  | .slash c :: ts, n, co, depth, st, fuel, hv, sim => by
+    obtain ⟨hc, hv'⟩ := hv
+    rw [render_cons, show fuel + 1 + itersT (.slash c :: ts) = (fuel + 1 + itersT ts) + 1 from by simp [itersT]; omega]
+    show stripAux _ (c :: render ts) st = _
+    rw [stripAux, slash_step c hc _ st]
+    simp only [bind, Except.bind, List.foldl_cons]
+    exact stripAux_tokens ts n co depth _ fuel hv'
+      ⟨by simp [afterTK, sim.count], fun h => by simp [afterTK, sim.order h], by simp [afterTK, sim.anchors]⟩
+  | .desc d :: ts, n, co, depth, st, fuel, hv, sim => by
+    obtain ⟨hn, hco, hv'⟩ := hv
     have hnc : st.nodeCount ≠ 0 := by rw [sim.count]; omega
     have hcur := sim.order hco
-    have sim' : Sim n co fresh depth (afterDesc st d) :=
-      ⟨by simp [afterDesc, sim.count], fun h => by simp [afterDesc, sim.order h], fun h => by simp [afterDesc, sim.prev h],
-        by simp [afterDesc, sim.anchors]⟩
-    have ih := stripAux_tokens ts n co fresh depth (afterDesc st d) fuel hv' sim'
+    have sim' : Sim n co depth (afterDesc st d) :=
+      ⟨by simp [afterDesc, sim.count], fun h => by simp [afterDesc, sim.order h], by simp [afterDesc, sim.anchors]⟩
+    have ih := stripAux_tokens ts n co depth (afterDesc st d) fuel hv' sim'
     rw [render_cons]
     show stripAux _ (d.fmt ++ render ts) st = _
     simp only [List.foldl_cons, itersT]
@@ -294,7 +477,7 @@ theorem stripAux_tokens : ∀ (ts : List TK) (n : Nat) (co fresh : Bool) (depth 
       rw [show fuel + 1 + (itersD d + itersT ts) = fuel + 1 + itersT ts + 2 from by simp [itersD, h1]; omega]
       rw [this]
       exact ih
-  | .bond c :: ts, n, co, fresh, depth, st, fuel, hv, sim => by
+  | .bond c :: ts, n, co, depth, st, fuel, hv, sim => by
     obtain ⟨hc, hv'⟩ := hv
     obtain ⟨o, ho⟩ : ∃ o, bondToOrder2.lookup c = some o := by
       simp only [TK.ok] at hc
@@ -305,30 +488,29 @@ theorem stripAux_tokens : ∀ (ts : List TK) (n : Nat) (co fresh : Bool) (depth 
     show stripAux _ (c :: render ts) st = _
     rw [stripAux, bond_step c o ho _ st]
     simp only [bind, Except.bind, List.foldl_cons]
-    exact stripAux_tokens ts n false fresh depth _ fuel hv'
-      ⟨by simp [afterTK, sim.count], fun h => (by cases h), fun h => by simp [afterTK, sim.prev h], by simp [afterTK, sim.anchors]⟩
-  | .ring r :: ts, n, co, fresh, depth, st, fuel, hv, sim => by
+    exact stripAux_tokens ts n false depth _ fuel hv'
+      ⟨by simp [afterTK, sim.count], fun h => (by cases h), by simp [afterTK, sim.anchors]⟩
+  | .ring r :: ts, n, co, depth, st, fuel, hv, sim => by
     obtain ⟨⟨hne, hall⟩, hnext, hv'⟩ := hv
     obtain ⟨c, cs, rfl⟩ : ∃ c cs, r = c :: cs := by
       cases r with
       | nil => exact absurd rfl hne
       | cons c cs => exact ⟨c, cs, rfl⟩
-    have hafter := (render_head ts n true fresh depth hv').2 hnext
+    have hafter := (render_head ts n true depth hv').2 hnext
     rw [render_cons, show fuel + 1 + itersT (.ring (c :: cs) :: ts) = (fuel + 1 + itersT ts) + 1 from by simp [itersT]; omega]
     show stripAux _ (c :: (cs ++ render ts)) st = _
     rw [stripAux, ring_step c cs (render ts) hall hafter st]
     simp only [bind, Except.bind, List.foldl_cons]
-    exact stripAux_tokens ts n true fresh depth _ fuel hv'
-      ⟨by simp [afterTK, sim.count], fun _ => rfl, fun h => by simp [afterTK, sim.prev h], by simp [afterTK, sim.anchors]⟩
-  | .opn :: ts, n, co, fresh, depth, st, fuel, hv, sim => by
+    exact stripAux_tokens ts n true depth _ fuel hv'
+      ⟨by simp [afterTK, sim.count], fun _ => rfl, by simp [afterTK, sim.anchors]⟩
+  | .opn :: ts, n, co, depth, st, fuel, hv, sim => by
     rw [render_cons, show fuel + 1 + itersT (.opn :: ts) = (fuel + 1 + itersT ts) + 1 from by simp [itersT]; omega]
     show stripAux _ ('(' :: render ts) st = _
     rw [stripAux, opn_step _ st]
     simp only [bind, Except.bind, List.foldl_cons]
-    exact stripAux_tokens ts n co fresh (depth + 1) _ fuel hv
-      ⟨by simp [afterTK, sim.count], fun h => by simp [afterTK, sim.order h], fun h => by simp [afterTK, sim.prev h],
-        by simp [afterTK, sim.anchors]⟩
-  | .cls :: ts, n, co, fresh, depth, st, fuel, hv, sim => by
+    exact stripAux_tokens ts n co (depth + 1) _ fuel hv
+      ⟨by simp [afterTK, sim.count], fun h => by simp [afterTK, sim.order h], by simp [afterTK, sim.anchors]⟩
+  | .cls :: ts, n, co, depth, st, fuel, hv, sim => by
     obtain ⟨hd, hv'⟩ := hv
     have hanc : st.anchor ≠ [] := by
       intro e; have := sim.anchors; rw [e] at this; simp at this; omega
@@ -336,110 +518,208 @@ theorem stripAux_tokens : ∀ (ts : List TK) (n : Nat) (co fresh : Bool) (depth 
     show stripAux _ (')' :: render ts) st = _
     rw [stripAux, cls_step _ st hanc]
     simp only [bind, Except.bind, List.foldl_cons]
-    exact stripAux_tokens ts n co false (depth - 1) _ fuel hv'
-      ⟨by simp [afterTK, sim.count], fun h => by simp [afterTK, sim.order h], fun h => (by cases h),
-        by simp [afterTK, sim.anchors]⟩
+    exact stripAux_tokens ts n co (depth - 1) _ fuel hv'
+      ⟨by simp [afterTK, sim.count], fun h => by simp [afterTK, sim.order h], by simp [afterTK, sim.anchors]⟩
 
 /-! ### what the folded state holds -/
 
-theorem fold_fields : ∀ (ts : List TK) (n : Nat) (co fresh : Bool) (depth : Nat) (st : StripState),
-    Valid n co fresh depth ts → Sim n co fresh depth st →
-    (ts.foldl afterTK st).smile = st.smile ++ cleanText ts ∧
-    (ts.foldl afterTK st).bonding = specDict n st.bonding ts ∧
-    (ts.foldl afterTK st).ez = st.ez ∧ (ts.foldl afterTK st).attrs = st.attrs
-  | [], _, _, _, _, st, _, _ => by simp [cleanText, specDict]
-  | .atom e :: ts, n, co, fresh, depth, st, hv, sim => by
-    obtain ⟨h1, h2, h3, h4⟩ := fold_fields ts (n + 1) true true depth (afterAtom st e) hv.2
-      ⟨by simp [afterAtom, sim.count], fun _ => rfl, fun _ => rfl, by simp [afterAtom, sim.anchors]⟩
-    simp only [List.foldl_cons, afterTK]
-    exact ⟨by rw [h1]; simp [afterAtom, cleanText, TK.clean, TK.text], by rw [h2]; simp [afterAtom, specDict], h3, h4⟩
-  | .desc d :: ts, n, co, fresh, depth, st, hv, sim => by
-    obtain ⟨hn, hco, hfr, hv'⟩ := hv
-    obtain ⟨h1, h2, h3, h4⟩ := fold_fields ts n co fresh depth (afterDesc st d) hv'
-      ⟨by simp [afterDesc, sim.count], fun h => by simp [afterDesc, sim.order h], fun h => by simp [afterDesc, sim.prev h],
-        by simp [afterDesc, sim.anchors]⟩
-    have hp : st.prevNode = n - 1 := by have := sim.prev hfr; have := sim.count; omega
-    simp only [List.foldl_cons, afterTK]
-    exact ⟨by rw [h1]; simp [afterDesc, cleanText, TK.clean], by rw [h2]; simp [afterDesc, specDict, hp], h3, h4⟩
-  | .bond c :: ts, n, co, fresh, depth, st, hv, sim => by
-    obtain ⟨h1, h2, h3, h4⟩ := fold_fields ts n false fresh depth (afterTK st (.bond c)) hv.2
-      ⟨by simp [afterTK, sim.count], fun h => (by cases h), fun h => by simp [afterTK, sim.prev h], by simp [afterTK, sim.anchors]⟩
-    simp only [List.foldl_cons]
-    exact ⟨by rw [h1]; simp [afterTK, cleanText, TK.clean, TK.text], by rw [h2]; simp [afterTK, specDict], h3, h4⟩
-  | .ring r :: ts, n, co, fresh, depth, st, hv, sim => by
-    obtain ⟨h1, h2, h3, h4⟩ := fold_fields ts n true fresh depth (afterTK st (.ring r)) hv.2.2
-      ⟨by simp [afterTK, sim.count], fun _ => rfl, fun h => by simp [afterTK, sim.prev h], by simp [afterTK, sim.anchors]⟩
-    simp only [List.foldl_cons]
-    exact ⟨by rw [h1]; simp [afterTK, cleanText, TK.clean, TK.text], by rw [h2]; simp [afterTK, specDict], h3, h4⟩
-  | .opn :: ts, n, co, fresh, depth, st, hv, sim => by
-    obtain ⟨h1, h2, h3, h4⟩ := fold_fields ts n co fresh (depth + 1) (afterTK st .opn) hv
-      ⟨by simp [afterTK, sim.count], fun h => by simp [afterTK, sim.order h], fun h => by simp [afterTK, sim.prev h],
-        by simp [afterTK, sim.anchors]⟩
-    simp only [List.foldl_cons]
-    exact ⟨by rw [h1]; simp [afterTK, cleanText, TK.clean, TK.text], by rw [h2]; simp [afterTK, specDict], h3, h4⟩
-  | .cls :: ts, n, co, fresh, depth, st, hv, sim => by
-    obtain ⟨h1, h2, h3, h4⟩ := fold_fields ts n co false (depth - 1) (afterTK st .cls) hv.2
-      ⟨by simp [afterTK, sim.count], fun h => by simp [afterTK, sim.order h], fun h => (by cases h),
-        by simp [afterTK, sim.anchors]⟩
-    simp only [List.foldl_cons]
-    exact ⟨by rw [h1]; simp [afterTK, cleanText, TK.clean, TK.text], by rw [h2]; simp [afterTK, specDict], h3, h4⟩
+/-- the loop state agrees with the position in the text -/
+structure At (p : Pos) (st : StripState) : Prop where
+  n : st.nodeCount = p.n
+  prev : st.prevNode = p.prev
+  stk : st.anchor = p.stk.reverse
 
-theorem itersT_le : ∀ (ts : List TK) (n : Nat) (co fresh : Bool) (depth : Nat), Valid n co fresh depth ts →
+theorem fold_fields : ∀ (ts : List TK) (co : Bool) (depth : Nat) (p : Pos) (st : StripState),
+    Valid p.n co depth ts → At p st → (∀ q ∈ st.attrs, q.1 < st.nodeCount) →
+    (ts.foldl afterTK st).smile = st.smile ++ cleanText ts ∧
+    (ts.foldl afterTK st).bonding = specDict p st.bonding ts ∧
+    (ts.foldl afterTK st).ez = specEz p st.ez ts ∧ (ts.foldl afterTK st).attrs = st.attrs ++ specAttrs p.n ts
+  | [], _, _, _, st, _, _, _ => by simp [cleanText, specDict, specEz, specAttrs]
+  | .atom e :: ts, co, depth, p, st, hv, hat, hk => by
+    obtain ⟨h1, h2, h3, h4⟩ := fold_fields ts true depth (p.after (.atom e)) (afterAtom st e) hv.2
+      ⟨by simp [afterAtom, Pos.after, hat.n], by simp [afterAtom, Pos.after, hat.n], by simpa [afterAtom, Pos.after] using hat.stk⟩
+      (fun q hq => Nat.lt_succ_of_lt (hk q hq))
+    simp only [List.foldl_cons, afterTK]
+    exact ⟨by rw [h1]; simp [afterAtom, cleanText, TK.clean, TK.text], by rw [h2]; simp [afterAtom, specDict], by rw [h3]; simp [afterAtom, specEz],
+      by rw [h4]; simp [afterAtom, specAttrs, Pos.after]⟩
+  | .atom2 e c :: ts, co, depth, p, st, hv, hat, hk => by
+    obtain ⟨h1, h2, h3, h4⟩ := fold_fields ts true depth (p.after (.atom2 e c)) (afterTK st (.atom2 e c)) hv.2
+      ⟨by simp [afterTK, Pos.after, hat.n], by simp [afterTK, Pos.after, hat.n], by simpa [afterTK, Pos.after] using hat.stk⟩
+      (fun q hq => Nat.lt_succ_of_lt (hk q hq))
+    simp only [List.foldl_cons]
+    exact ⟨by rw [h1]; simp [afterTK, cleanText, TK.clean, TK.text], by rw [h2]; simp [afterTK, specDict], by rw [h3]; simp [afterTK, specEz],
+      by rw [h4]; simp [afterTK, specAttrs, Pos.after]⟩
+  | .node inner :: ts, co, depth, p, st, hv, hat, hk => by
+    have hfresh : ∀ q ∈ st.attrs, q.1 ≠ st.nodeCount := fun q hq => Nat.ne_of_lt (hk q hq)
+    have hattrs : (afterTK st (.node inner)).attrs = st.attrs ++ [(st.nodeCount, bareAttrs)] := by
+      simp only [afterTK, lookup_absent st.attrs st.nodeCount hfresh, Option.getD_none]
+      rw [pySet_absent st.attrs st.nodeCount _ hfresh]
+      rfl
+    obtain ⟨h1, h2, h3, h4⟩ := fold_fields ts true depth (p.after (.node inner)) (afterTK st (.node inner)) hv.2
+      ⟨by simp [afterTK, Pos.after, hat.n], by simp [afterTK, Pos.after, hat.n], by simpa [afterTK, Pos.after] using hat.stk⟩
+      (by
+        intro q hq
+        rw [hattrs] at hq
+        show q.1 < st.nodeCount + 1
+        rcases List.mem_append.mp hq with h | h
+        · exact Nat.lt_succ_of_lt (hk q h)
+        · simp only [List.mem_singleton] at h; rw [h]; exact Nat.lt_succ_self _)
+    simp only [List.foldl_cons]
+    exact ⟨by rw [h1]; simp [afterTK, cleanText, TK.clean, TK.text], by rw [h2]; simp [afterTK, specDict], by rw [h3]; simp [afterTK, specEz],
+      by rw [h4, hattrs]; simp [specAttrs, Pos.after, hat.n]⟩
+  | .anode nm anno :: ts, co, depth, p, st, hv, hat, hk => by
+    have hfresh : ∀ q ∈ st.attrs, q.1 ≠ st.nodeCount := fun q hq => Nat.ne_of_lt (hk q hq)
+    obtain ⟨a, ha⟩ := hv.1.2.2.2.2
+    have hattrs : (afterTK st (.anode nm anno)).attrs = st.attrs ++ [(st.nodeCount, annoOf anno)] := by
+      simp only [afterTK, lookup_absent st.attrs st.nodeCount hfresh, Option.getD_none]
+      rw [pySet_absent st.attrs st.nodeCount _ hfresh]
+      simp only [annoOf, ha]
+    obtain ⟨h1, h2, h3, h4⟩ := fold_fields ts true depth (p.after (.anode nm anno)) (afterTK st (.anode nm anno)) hv.2
+      ⟨by simp [afterTK, Pos.after, hat.n], by simp [afterTK, Pos.after, hat.n], by simpa [afterTK, Pos.after] using hat.stk⟩
+      (by
+        intro q hq
+        rw [hattrs] at hq
+        show q.1 < st.nodeCount + 1
+        rcases List.mem_append.mp hq with h | h
+        · exact Nat.lt_succ_of_lt (hk q h)
+        · simp only [List.mem_singleton] at h; rw [h]; exact Nat.lt_succ_self _)
+    simp only [List.foldl_cons]
+    exact ⟨by rw [h1]; simp [afterTK, cleanText, TK.clean, TK.text], by rw [h2]; simp [afterTK, specDict], by rw [h3]; simp [afterTK, specEz],
+      by rw [h4, hattrs]; simp [specAttrs, Pos.after, hat.n]⟩
+  | .slash c :: ts, co, depth, p, st, hv, hat, hk => by
+    obtain ⟨h1, h2, h3, h4⟩ := fold_fields ts co depth p (afterTK st (.slash c)) hv.2
+      ⟨by simp [afterTK, hat.n], by simp [afterTK, hat.prev], by simpa [afterTK] using hat.stk⟩ (by simpa [afterTK] using hk)
+    simp only [List.foldl_cons]
+    exact ⟨by rw [h1]; simp [afterTK, cleanText, TK.clean], by rw [h2]; simp [afterTK, specDict, Pos.after],
+      by rw [h3]; simp [afterTK, specEz, hat.n, hat.prev], by rw [h4]; simp [afterTK, specAttrs]⟩
+  | .desc d :: ts, co, depth, p, st, hv, hat, hk => by
+    obtain ⟨hn, hco, hv'⟩ := hv
+    obtain ⟨h1, h2, h3, h4⟩ := fold_fields ts co depth p (afterDesc st d) hv'
+      ⟨by simp [afterDesc, hat.n], by simp [afterDesc, hat.prev], by simpa [afterDesc] using hat.stk⟩ (by simpa [afterDesc] using hk)
+    simp only [List.foldl_cons, afterTK]
+    exact ⟨by rw [h1]; simp [afterDesc, cleanText, TK.clean], by rw [h2]; simp [afterDesc, specDict, hat.prev],
+      by rw [h3]; simp [afterDesc, specEz, Pos.after], by rw [h4]; simp [afterDesc, specAttrs]⟩
+  | .bond c :: ts, co, depth, p, st, hv, hat, hk => by
+    obtain ⟨h1, h2, h3, h4⟩ := fold_fields ts false depth p (afterTK st (.bond c)) hv.2
+      ⟨by simp [afterTK, hat.n], by simp [afterTK, hat.prev], by simpa [afterTK] using hat.stk⟩ (by simpa [afterTK] using hk)
+    simp only [List.foldl_cons]
+    exact ⟨by rw [h1]; simp [afterTK, cleanText, TK.clean, TK.text], by rw [h2]; simp [afterTK, specDict, Pos.after],
+      by rw [h3]; simp [afterTK, specEz, Pos.after], by rw [h4]; simp [afterTK, specAttrs]⟩
+  | .ring r :: ts, co, depth, p, st, hv, hat, hk => by
+    obtain ⟨h1, h2, h3, h4⟩ := fold_fields ts true depth p (afterTK st (.ring r)) hv.2.2
+      ⟨by simp [afterTK, hat.n], by simp [afterTK, hat.prev], by simpa [afterTK] using hat.stk⟩ (by simpa [afterTK] using hk)
+    simp only [List.foldl_cons]
+    exact ⟨by rw [h1]; simp [afterTK, cleanText, TK.clean, TK.text], by rw [h2]; simp [afterTK, specDict, Pos.after],
+      by rw [h3]; simp [afterTK, specEz, Pos.after], by rw [h4]; simp [afterTK, specAttrs]⟩
+  | .opn :: ts, co, depth, p, st, hv, hat, hk => by
+    obtain ⟨h1, h2, h3, h4⟩ := fold_fields ts co (depth + 1) (p.after .opn) (afterTK st .opn) hv
+      ⟨by simp [afterTK, Pos.after, hat.n], by simp [afterTK, Pos.after, hat.prev], by simp [afterTK, Pos.after, hat.stk, hat.prev]⟩
+      (by simpa [afterTK] using hk)
+    simp only [List.foldl_cons]
+    exact ⟨by rw [h1]; simp [afterTK, cleanText, TK.clean, TK.text], by rw [h2]; simp [afterTK, specDict],
+      by rw [h3]; simp [afterTK, specEz], by rw [h4]; simp [afterTK, specAttrs, Pos.after]⟩
+  | .cls :: ts, co, depth, p, st, hv, hat, hk => by
+    have hlast : st.anchor.getLast?.getD 0 = p.stk.headD 0 := by
+      rw [hat.stk]; cases p.stk <;> simp
+    have hdrop : st.anchor.dropLast = p.stk.tail.reverse := by
+      rw [hat.stk]; cases p.stk <;> simp
+    obtain ⟨h1, h2, h3, h4⟩ := fold_fields ts co (depth - 1) (p.after .cls) (afterTK st .cls) hv.2
+      ⟨by simp [afterTK, Pos.after, hat.n], by simp [afterTK, Pos.after, hlast], by simp [afterTK, Pos.after, hdrop]⟩
+      (by simpa [afterTK] using hk)
+    simp only [List.foldl_cons]
+    exact ⟨by rw [h1]; simp [afterTK, cleanText, TK.clean, TK.text], by rw [h2]; simp [afterTK, specDict],
+      by rw [h3]; simp [afterTK, specEz], by rw [h4]; simp [afterTK, specAttrs, Pos.after]⟩
+
+theorem itersT_le : ∀ (ts : List TK) (n : Nat) (co : Bool) (depth : Nat), Valid n co depth ts →
     itersT ts ≤ (render ts).length
-  | [], _, _, _, _, _ => by simp [itersT]
-  | .atom e :: ts, n, co, fresh, depth, hv => by
-    have := itersT_le ts _ _ _ _ hv.2
+  | [], _, _, _, _ => by simp [itersT]
+  | .atom e :: ts, n, co, depth, hv => by
+    have := itersT_le ts _ _ _ hv.2
     simp only [itersT, render_cons, TK.text, List.length_append, List.length_singleton]; omega
-  | .desc d :: ts, n, co, fresh, depth, hv => by
-    have := itersT_le ts _ _ _ _ hv.2.2.2
+  | .atom2 e c :: ts, n, co, depth, hv => by
+    have := itersT_le ts _ _ _ hv.2
+    simp only [itersT, render_cons, TK.text, List.length_append, List.length_cons, List.length_nil]; omega
+  | .node i :: ts, n, co, depth, hv => by
+    have := itersT_le ts _ _ _ hv.2
+    simp only [itersT, render_cons, TK.text, List.length_append, List.length_cons]; omega
+  | .anode a x :: ts, n, co, depth, hv => by
+    have := itersT_le ts _ _ _ hv.2
+    simp only [itersT, render_cons, TK.text, List.length_append, List.length_cons]; omega
+  | .slash c :: ts, n, co, depth, hv => by
+    have := itersT_le ts _ _ _ hv.2
+    simp only [itersT, render_cons, TK.text, List.length_append, List.length_singleton]; omega
+  | .desc d :: ts, n, co, depth, hv => by
+    have := itersT_le ts _ _ _ hv.2.2
     have := itersD_le d
     simp only [itersT, render_cons, TK.text, List.length_append]; omega
-  | .bond c :: ts, n, co, fresh, depth, hv => by
-    have := itersT_le ts _ _ _ _ hv.2
+  | .bond c :: ts, n, co, depth, hv => by
+    have := itersT_le ts _ _ _ hv.2
     simp only [itersT, render_cons, TK.text, List.length_append, List.length_singleton]; omega
-  | .ring r :: ts, n, co, fresh, depth, hv => by
-    have := itersT_le ts _ _ _ _ hv.2.2
+  | .ring r :: ts, n, co, depth, hv => by
+    have := itersT_le ts _ _ _ hv.2.2
     have hne : 1 ≤ r.length := by
       cases r with
       | nil => exact absurd rfl hv.1.1
       | cons _ _ => simp
     simp only [itersT, render_cons, TK.text, List.length_append]; omega
-  | .opn :: ts, n, co, fresh, depth, hv => by
-    have := itersT_le ts _ _ _ _ hv
+  | .opn :: ts, n, co, depth, hv => by
+    have := itersT_le ts _ _ _ hv
     simp only [itersT, render_cons, TK.text, List.length_append, List.length_singleton]; omega
-  | .cls :: ts, n, co, fresh, depth, hv => by
-    have := itersT_le ts _ _ _ _ hv.2
+  | .cls :: ts, n, co, depth, hv => by
+    have := itersT_le ts _ _ _ hv.2
     simp only [itersT, render_cons, TK.text, List.length_append, List.length_singleton]; omega
 
-/-- **C13 for fragment texts with branches, ring digits and bond symbols.**  Any stream of plain atoms,
-    bond symbols, ring-closure runs, balanced parentheses and bonding descriptors (each written after an
-    atom, after that atom's ring digits or after another descriptor of the same atom): the clean text is the
-    text without the descriptors, the dictionary holds every descriptor — kind, label, order digit — under
-    the index of the atom it was written after, in the order written; no slash marks, no annotations. -/
-theorem C13_tokens (ts : List TK) (hv : Valid 0 true false 0 ts)
+/-- the dictionaries of a whole text -/
+abbrev specDict0 (ts : List TK) : List (Nat × List Desc) := specDict {} [] ts
+abbrev specEz0 (ts : List TK) : List (Nat × Char) := specEz {} [] ts
+
+/-- **C13 for fragment texts.**  Any stream of plain atoms, two-letter elements, bracket atoms with or without
+    annotations, bond symbols, ring-closure runs (digits and `%nn`, with or without a ring bond symbol),
+    balanced parentheses at any depth, E/Z marks, and bonding descriptors — each written after an atom, after
+    that atom's ring digits, after another descriptor or after a closing parenthesis: the clean text is the
+    text without descriptors, marks and annotations; the dictionary holds every descriptor — kind, label, order
+    digit — under the index of the atom it was written after (after a closing parenthesis: the atom the branch
+    hangs on), in the order written; every E/Z mark is recorded on the atoms on both of its sides; the
+    annotation dictionary holds, for every bracket atom, what the fragment dialect (C14) makes of its
+    annotation text. -/
+theorem C13_tokens (ts : List TK) (hv : Valid 0 true 0 ts)
     (hascii : ((render ts).any fun c => decide (c.toNat > 127)) = false) :
-    strip (render ts) = .ok ⟨cleanText ts, specDict 0 [] ts, [], []⟩ := by
+    strip (render ts) = .ok ⟨cleanText ts, specDict0 ts, specEz0 ts, specAttrs 0 ts⟩ := by
   unfold strip
   simp only [hascii, Bool.false_eq_true, if_false]
-  have hle := itersT_le ts 0 true false 0 hv
-  have sim : Sim 0 true false 0 ({} : StripState) := ⟨rfl, fun _ => rfl, fun h => (by cases h), rfl⟩
+  have hle := itersT_le ts 0 true 0 hv
+  have sim : Sim 0 true 0 ({} : StripState) := ⟨rfl, fun _ => rfl, rfl⟩
   rw [show (render ts).length + 1 = ((render ts).length - itersT ts) + 1 + itersT ts from by omega]
-  rw [stripAux_tokens ts 0 true false 0 {} _ hv sim]
-  obtain ⟨h1, h2, h3, h4⟩ := fold_fields ts 0 true false 0 {} hv sim
+  rw [stripAux_tokens ts 0 true 0 {} _ hv sim]
+  obtain ⟨h1, h2, h3, h4⟩ := fold_fields ts true 0 {} {} hv ⟨rfl, rfl, rfl⟩ (by intro q hq; cases hq)
   simp only [bind, Except.bind, pure, Except.pure, h1, h2, h3, h4]
   rfl
 
-/-! worked instance: descriptors after an atom, inside a branch with a bond symbol, and after ring digits -/
+/-! worked instance: descriptors after an atom, inside a branch with a bond symbol, after a closing
+    parenthesis (they belong to the atom the branch hangs on) and after ring digits; a two-letter element,
+    an annotated bracket atom and E/Z marks -/
 def dA : WFDesc := ⟨'$', "a".toList, 1, by decide, by decide, by decide⟩
 def dB : WFDesc := ⟨'>', "b".toList, 2, by decide, by decide, by decide⟩
 def dC : WFDesc := ⟨'<', [], 1, by decide, by decide, by decide⟩
 def exToks : List TK :=
-  [.atom 'C', .desc dA, .ring "1".toList, .opn, .atom 'C', .desc dB, .cls, .bond '=', .atom 'C', .atom 'C', .ring "1".toList, .desc dC]
-example : render exToks = "C[$a]1(C=[>b])=CC1[<]".toList := by decide +kernel
-example : Valid 0 true false 0 exToks := by
+  [.atom 'C', .desc dA, .ring "1".toList, .opn, .atom 'C', .desc dB, .opn, .atom 'O', .cls, .cls, .desc dC, .bond '=', .atom 'C',
+   .atom 'C', .ring "1".toList, .desc dC]
+example : render exToks = "C[$a]1(C=[>b](O))[<]=CC1[<]".toList := by decide +kernel
+example : Valid 0 true 0 exToks := by
   simp only [exToks, Valid, TK.ok, TK.isRing, List.head?_cons, Option.map_some]
   decide +kernel
-example : cleanText exToks = "C1(C)=CC1".toList ∧
-    specDict 0 [] exToks = [(0, ["$a1".toList]), (1, [">b2".toList]), (3, ["<1".toList])] := by decide +kernel
+example : cleanText exToks = "C1(C(O))=CC1".toList ∧
+    specDict0 exToks = [(0, ["$a1".toList, "<1".toList]), (1, [">b2".toList]), (4, ["<1".toList])] := by decide +kernel
+example : (match strip "C[$a]1(C=[>b](O))[<]=CC1[<]".toList with
+    | .ok o => some (o.smile, o.bonding, o.ez.length, o.attrs.length)
+    | .error _ => none) =
+    some ("C1(C(O))=CC1".toList, [(0, ["$a1".toList, "<1".toList]), (1, [">b2".toList]), (4, ["<1".toList])], 0, 0) := by
+  decide +kernel
+
+def exToks2 : List TK :=
+  [.atom2 'C' 'l', .slash '/', .atom 'C', .desc dA, .bond '=', .anode "C".toList "q=1".toList, .slash '\\', .atom2 'B' 'r']
+example : render exToks2 = "Cl/C[$a]=[C;q=1]\\Br".toList := by decide +kernel
+example : cleanText exToks2 = "ClC=[C]Br".toList ∧ specDict0 exToks2 = [(1, ["$a1".toList])] ∧
+    specEz0 exToks2 = [(1, '/'), (0, '/'), (3, '\\'), (2, '\\')] := by decide +kernel
 
 end CGV.C13
